@@ -11,7 +11,7 @@ from symx.core import SReal, integer, real, term
 from symx.runner import F, JobAcc
 
 PROPERTY = "C07"
-BUDGET = {"quick": 170, "thorough": 1700}
+BUDGET = {"quick": 210, "thorough": 1700}
 META = {
     "explanation": "bounded symbolic execution of the real signed_weights / gamma / bound / project_lambda of every moment, of "
                    "_Lagrangian.__init__/_call_oracle and of the relabel/reweight lines of GridSearch.fit (recorder estimator), with symbolic multipliers "
@@ -89,11 +89,13 @@ def jobs(tier, seed):
                 structs += mc.sample_datasets(3, 2, 0, 8, rnd, need_ctrl=False)
             else:
                 structs += list(mc.datasets(3, 2, 0))
-            structs += mc.sample_datasets(3, 3, 2, 3 if tier == "quick" else 30, rnd, need_ctrl=True)
+            structs += mc.sample_datasets(3, 3, 2, 2 if tier == "quick" else 30, rnd, need_ctrl=True)
             if tier != "quick":
                 structs += mc.sample_datasets(4, 3, 2, 30, rnd)
-            for ci in range(0, len(structs), 3):
-                js.append({"id": f"{where}-{name}-{ci // 3}", "kind": where, "moment": name, "structs": structs[ci:ci + 3]})
+            for ci in range(0, len(structs), 1):  # one structure per job: a structure with control strata alone costs up to ~70 s of NRA queries
+                # quick tier: 5 s per pair query (a handful of NRA pair queries on structures with control strata need 30-60 s each; they come back
+                # `unknown` = undischarged in the quick evidence and are decided in the thorough tier, which keeps the 60 s cap)
+                js.append({"id": f"{where}-{name}-{ci}", "kind": where, "moment": name, "structs": structs[ci:ci + 1], "ob_ms": 5000 if tier == "quick" else 60000})
     # the generic UtilityParity with user-supplied (symbolic) utilities and events: the public base class of the five parity moments
     for n in (2, 3):
         for g in core.rgs(n, 2):
@@ -207,7 +209,8 @@ def _reduction(acc, job, si, y, groups, ctrl, deadline):
     from fairlearn.reductions._exponentiated_gradient._lagrangian import _Lagrangian
 
     n, name, where = len(y), job["moment"], job["kind"]
-    ex = {"y": y, "groups": groups, "ctrl": ctrl, "cw": [0.5, 0.125, 0.875][si % 3]}
+    acc.ob_timeout_ms = job.get("ob_ms", 60000)
+    ex = {"y": y, "groups": groups, "ctrl": ctrl, "cw": [0.5, 0.125, 0.875][(si + int(job["id"].rsplit("-", 1)[1])) % 3]}
     LAM_ORDER[0] = "index"
     kw = {"sensitive_features": [mc.GROUP_NAMES[g] for g in groups]}
     if ctrl is not None:
